@@ -190,11 +190,15 @@ func checkC19(c C19Case) Verdict {
 		if dead {
 			continue
 		}
-		failing := "{$a.nokey.deeper}"
+		failing := []string{"{$a.nokey.deeper}"}
 		if depth > 0 {
-			failing = "{call ns.d1.t /}"
+			failing = []string{"{call ns.d1.t /}"}
+			if (c.Fault/4)%2 == 1 {
+				// a call whose params sit on the following lines: the failure is still reported at the {call} line
+				failing = []string{"{call ns.d1.t}", "{param x: $a /}", "{param y}", "content {$a}", "{/param}", "{/call}"}
+			}
 		}
-		body := append(append(append([]string{}, c.Lines[:at]...), failing), c.Lines[at:]...)
+		body := append(append(append([]string{}, c.Lines[:at]...), failing...), c.Lines[at:]...)
 		src, start := c.file(body)
 		names, srcs := []string{c.Name}, []string{src}
 		for d := 1; d <= depth; d++ {
@@ -203,7 +207,7 @@ func checkC19(c C19Case) Verdict {
 				inner = fmt.Sprintf("{call ns.d%d.t /}", d+1)
 			}
 			names = append(names, fmt.Sprintf("callee%d.soy", d))
-			srcs = append(srcs, fmt.Sprintf("{namespace ns.d%d}\n\n\n/** */\n{template .t}\nx\n%s\n{/template}\n", d, inner))
+			srcs = append(srcs, fmt.Sprintf("{namespace ns.d%d}\n\n\n/**\n * @param? x\n * @param? y */\n{template .t}\n{if $x}x{/if}{if $y}y{/if}\n%s\n{/template}\n", d, inner))
 		}
 		cb, err, pn := compileBundle(names, srcs, nil)
 		if err != nil || pn != nil {
